@@ -77,6 +77,8 @@ class Session(object):
         self.rig = fl.Rig(node_id='dtn://node/')
         self.seq = 0
         self.batch = []      # (events json, observations, meta)
+        self.checked = 0     # deliveries of this agent already examined by the whole-history monitor
+        self.per_ident = {}  # original bundle identity -> deliveries over the whole life of this agent
 
     def fresh_seq(self):
         self.seq += 1
@@ -176,6 +178,13 @@ class Session(object):
                                  'with an earlier, different fragment was discarded as "already seen": never reassembled'))
                 else:
                     viol.append(('C06:covered-not-delivered', 'covering fragment set received, nothing delivered'))
+        # whole-history monitor: at most one delivery per original bundle identity, ever (on this agent)
+        for d in rig.delivered[self.checked:]:
+            kd = key_of(d)
+            self.per_ident[kd] = self.per_ident.get(kd, 0) + 1
+            if self.per_ident[kd] > 1 and not any(sig == 'C06:delivered-twice' for sig, _w in viol):
+                viol.append(('C06:delivered-twice', 'bundle identity %s delivered %d times over the history' % (kd, self.per_ident[kd])))
+        self.checked = len(rig.delivered)
         self.batch.append((evj, obs, [d for (_n, d) in deliveries], viol, tag, events))
         return viol
 
@@ -272,6 +281,7 @@ def run(chk):
     rng = chk.rng
     chk.cov['rule'] = ('fragment sets made by the real _create (MTU-driven) and hand-made uneven/overlapping ones (independent encoder); '
                        + ('random arrival orders with duplicates' if quick else 'ALL permutations of <= 6 fragments plus one duplicate at every position, random orders of larger sets')
+                       + '; 2-3 complete covers of one bundle by different fragmentations (second cover after the delivery / before any idle / interleaved)'
                        + '; idle callbacks eager / at the end / random; 3 interleaved bundles (same source, different time/sequence; different source); '
                        'incomplete sets (no delivery expected); Lean counterexample witness replayed')
     chk.assumptions += [
@@ -384,6 +394,55 @@ def run(chk):
             if rng.random() < 0.15:
                 recvs.append(rng.choice(pool[rng.randrange(3)]))
         sess.run_events(with_idles(rng, recvs, rng.choice(['end', 'eager', 'random'])), origs, 'interleaved/3')
+    sess.flush()
+
+    # --- C2. several complete covers of the same bundle by DIFFERENT fragmentations: the second and third
+    #         reassembly complete after (or while) the first is delivered; re-injection must be de-duplicated
+    ncov = 25 if quick else 250
+
+    def partition(n, k):
+        pts = sorted(rng.sample(range(1, n), k - 1)) if k > 1 else []
+        edges = [0] + pts + [n]
+        return list(zip(edges, edges[1:]))
+    for i in range(ncov):
+        n = rng.choice([12, 30, 64, 257, 1000])
+        spec, P = new_orig(n)
+        covers = []
+        used = set()
+        for c in range(rng.choice([2, 2, 3])):
+            for _try in range(20):
+                cuts = partition(n, rng.randrange(1, min(6, n)))
+                if not (set(cuts) & used):          # fresh fragment identities: (offset, length) all new
+                    break
+            used |= set(cuts)
+            covers.append([hand_fragment(spec, P, lo, hi) for lo, hi in cuts])
+        mode = rng.choice(['after-delivery', 'after-delivery', 'before-idle', 'interleaved'])
+        ev = []
+        if mode == 'after-delivery':
+            for cov in covers:
+                order = rng.sample(cov, len(cov))
+                ev += [('recv', f) for f in order] + [('idle', 0)]
+        elif mode == 'before-idle':
+            for cov in covers:
+                ev += [('recv', f) for f in rng.sample(cov, len(cov))]
+            ev += [('idle', rng.randrange(len(covers)))] + [('idle', 0)] * 3
+        else:
+            allf = [f for cov in covers for f in cov]
+            rng.shuffle(allf)
+            for f in allf:
+                ev.append(('recv', f))
+                if rng.random() < 0.3:
+                    ev.append(('idle', 0))
+            ev += [('idle', 0)] * 3
+        ev += [('idle', 0)]
+        sess.run_events(ev, {okey(spec): (P, spec)}, 'covers/%d-%s' % (len(covers), mode))
+    sess.flush()
+    # the demo of the seeded change: X[0,6) X[6,12) then X[0,4) X[4,8) X[8,12), loop drained after each cover
+    spec, P = new_orig(12, ext=0)
+    ev = [('recv', hand_fragment(spec, P, 0, 6)), ('recv', hand_fragment(spec, P, 6, 12)), ('idle', 0),
+          ('recv', hand_fragment(spec, P, 0, 4)), ('recv', hand_fragment(spec, P, 4, 8)), ('recv', hand_fragment(spec, P, 8, 12)),
+          ('idle', 0), ('idle', 0)]
+    sess.run_events(ev, {okey(spec): (P, spec)}, 'covers/2-fixed')
     sess.flush()
 
     # --- D. larger random sets
